@@ -4,8 +4,8 @@ Import ListNotations.
 From V Require Import Base.Bytes Model.Conc.
 Inductive wclass := WGuarded | WFresh | WOnce | WOther.
 Definition roots_found : nat := 14.
-Definition reachable_functions : nat := 146.
-Definition functions_total : nat := 208.
+Definition reachable_functions : nat := 147.
+Definition functions_total : nat := 209.
 Definition shared_types : list bytes := [(sb "vuego.ExprEvaluator"); (sb "vuego.Loader"); (sb "vuego.Vue"); (sb "vuego.templateCacheEntry")].
 Definition lock_names : list (nat * bytes) := [
   (0, (sb "ExprEvaluator.mu"));
